@@ -176,7 +176,9 @@ class TensorMesh(discretize.TensorMesh if discretize else BaseMesh):
             equal *= np.allclose(self.h[0], mesh.h[0], atol=0)
             equal *= np.allclose(self.h[1], mesh.h[1], atol=0)
             equal *= np.allclose(self.h[2], mesh.h[2], atol=0)
-            equal *= np.allclose(self.origin, mesh.origin, atol=0)
+            # Origin: relative to the cell widths, not to the coordinates.
+            atol = 1e-5*min([np.min(h) for h in self.h])
+            equal *= np.allclose(self.origin, mesh.origin, rtol=0, atol=atol)
 
         return bool(equal)
 
